@@ -359,9 +359,15 @@ func picksFor(β int, cmpName string, keys []E) string {
 	for i, k := range keys {
 		idx[k.P] = i
 	}
-	t := stree.New(β, cmpFor(cmpName), append([]E(nil), keys...)...)
 	var picks []int
-	t.Inorder(func(e E) bool { picks = append(picks, idx[e.P]); return true })
+	// a broken implementation must not take the generator down: the history is emitted anyway and
+	// the failure is then recorded, under the watchdog, by exec
+	if tr.Guard(20*time.Second, func() {
+		t := stree.New(β, cmpFor(cmpName), append([]E(nil), keys...)...)
+		t.Inorder(func(e E) bool { picks = append(picks, idx[e.P]); return true })
+	}) != "" {
+		return "."
+	}
 	return tr.Ints(picks)
 }
 
@@ -754,15 +760,22 @@ func genTwoChild(g *tr.G, n int) {
 	t := h.New(β, nil)
 	cmp := cmpFor("n")
 	real := stree.New(β, cmp)
+	broken := false // the steering copy failed: stop steering, emit what there is
+	guard := func(f func()) {
+		if !broken && tr.Guard(20*time.Second, f) != "" {
+			broken = true
+		}
+	}
 	for _, k := range pattern(r, tr.Pick(r, []string{"random", "inside-out", "random"}), n) {
 		e := E{2 * k, 0}
 		h.Add(t, e.K)
-		real.Add(e)
+		guard(func() { real.Add(e) })
 	}
 	found := 0
 	for i := 0; i < r.Range(1, 6); i++ {
-		cands := twoChildKeys(real)
-		if len(cands) == 0 {
+		var cands []E
+		guard(func() { cands = twoChildKeys(real) })
+		if len(cands) == 0 || broken {
 			break
 		}
 		e := tr.Pick(r, cands)
@@ -770,7 +783,7 @@ func genTwoChild(g *tr.G, n int) {
 		ks := h.keysOf(t)
 		j := sort.SearchInts(ks, e.K)
 		h.Remove(t, e.K)
-		real.Remove(e)
+		guard(func() { real.Remove(e) })
 		found++
 		if j+1 < len(ks) {
 			h.Probe(t, ks[j+1]) // the promoted successor
